@@ -62,19 +62,27 @@ class Check:
         Print Assumptions, hygiene grep.  Returns True when all obligations discharged."""
         ok = True
         sh(["bash", os.path.join(VERIF, "tools/gencoqproject.sh")])
-        rc, out = sh("make -j16 2>&1 | tail -20", cwd=COQ, timeout=3000)
-        rc2, _ = sh(["test", "-f", os.path.join(COQ, "theories/props/%s.vo" % self.pid)])
-        if rc2 != 0:
-            self.fail_proof("coq build did not produce props/%s.vo:\n%s" % (self.pid, out))
+        rc, out_make = sh("make -j16 2>&1 | tail -20", cwd=COQ, timeout=3000)
+        props_dir = os.path.join(COQ, "theories/props")
+        srcs = sorted(os.path.join(props_dir, f) for f in os.listdir(props_dir)
+                      if re.fullmatch(re.escape(self.pid) + r"(_[A-Za-z0-9]+)?\.v", f))
+        if not srcs:
+            self.fail_proof("no props/%s*.v" % self.pid)
             return False
-        src = os.path.join(COQ, "theories/props/%s.v" % self.pid)
-        text = open(src).read()
-        theorems = re.findall(r"^\s*Theorem\s+([A-Za-z0-9_']+)", text, re.M)
-        vo = os.path.join(self.tmp, "%s.vo" % self.pid)
-        rc, out = sh(["coqc", "-Q", "theories", "Ekit", "-o", vo, src], cwd=COQ, timeout=1200)
-        if rc != 0:
-            self.fail_proof("props/%s.v does not compile:\n%s" % (self.pid, out[-2000:]))
-            return False
+        theorems, text, out = [], "", ""
+        for src in srcs:
+            if not os.path.exists(src[:-2] + ".vo"):
+                self.fail_proof("coq build did not produce %s.vo:\n%s" % (os.path.basename(src)[:-2], out_make))
+                return False
+            t = open(src).read()
+            text += t
+            theorems += re.findall(r"^\s*Theorem\s+([A-Za-z0-9_']+)", t, re.M)
+            vo = os.path.join(self.tmp, os.path.basename(src)[:-2] + ".vo")
+            rc, o = sh(["coqc", "-Q", "theories", "Ekit", "-o", vo, src], cwd=COQ, timeout=1200)
+            if rc != 0:
+                self.fail_proof("%s does not compile:\n%s" % (os.path.basename(src), o[-2000:]))
+                return False
+            out += o + "\n"
         closed = out.count("Closed under the global context")
         axioms = set()
         for blk in re.findall(r"Axioms:\n((?:.+\n?)+?)(?=\n\S|\Z)", out):
@@ -87,7 +95,7 @@ class Check:
         self.cov["theorems"] = theorems
         self.cov["axioms_reported"] = sorted(axioms)
         self.cov["checker_cmd"] = ("make -C coq -j16 (full .vo build, coq_makefile) && coqc -Q theories Ekit "
-                                   "theories/props/%s.v  [Print Assumptions under every theorem]" % self.pid)
+                                   "theories/props/%s*.v  [Print Assumptions under every theorem]" % self.pid)
         if n_print < len(theorems):
             self.fail_proof("props/%s.v: %d theorems but only %d Print Assumptions" % (self.pid, len(theorems), n_print))
             ok = False
